@@ -9,9 +9,9 @@ From Blue Require Import Scrunch.ModelBits Scrunch.Model Scrunch.ModelWT Scrunch
 Import ListNotations.
 Local Open Scope nat_scope.
 From Blue Require Import Scrunch.Props_C19.
-Check C19_compressed_document_answers_as_scan : forall text rb, check_record_boundaries text rb = true -> exists d, construct_compressed text rb = Ok d /\ answers_as_scan text rb d.
-Check C19_reference_psi_document_answers_as_scan : forall text rb, check_record_boundaries text rb = true -> exists d, construct_reference_psi_doc text rb = Ok d /\ answers_as_scan text rb d.
-Check C19_wavelet_psi_document_answers_as_scan : forall text rb, check_record_boundaries text rb = true -> exists d, construct_wavelet_doc text rb = Ok d /\ answers_as_scan text rb d.
+Check C19_compressed_document_answers_as_scan_partial : forall text rb, check_record_boundaries text rb = true -> exists d, construct_compressed text rb = Ok d /\ answers_as_scan text rb d.
+Check C19_reference_psi_document_answers_as_scan_partial : forall text rb, check_record_boundaries text rb = true -> exists d, construct_reference_psi_doc text rb = Ok d /\ answers_as_scan text rb d.
+Check C19_wavelet_psi_document_answers_as_scan_partial : forall text rb, check_record_boundaries text rb = true -> exists d, construct_wavelet_doc text rb = Ok d /\ answers_as_scan text rb d.
 Check C19_wavelet_psi_meets_the_psi_interface : forall text, let T := sigma_string text in let sa := suffix_array T in let psi := psi_of sa (inverse sa) in exists w, wpsi_construct (the_sigma text) psi = Ok w /\ psi_ok T sa psi (length text) (wpsi_ops (the_sigma text) w).
 Check C19_reference_document_is_the_scan : forall text rb, check_record_boundaries text rb = true -> exists r, construct_refdoc text rb = Ok r /\ (forall needle, ref_search r needle = occurrences text needle /\ ref_count r needle = length (occurrences text needle)) /\ (forall off, off < length text -> ref_lookup r off = Ok (spec_record_of rb off)) /\ (forall k, k < length rb -> ref_retrieve r k = Ok (spec_record text rb k) /\ ref_offset_of r k = Ok (nth k rb 0)) /\ (forall k, length rb <= k -> ref_retrieve r k = Err /\ ref_offset_of r k = Err).
 Check C19_invalid_divisions_refused_alike : forall text rb, check_record_boundaries text rb = false -> construct_compressed text rb = Err /\ construct_reference_psi_doc text rb = Err /\ construct_refdoc text rb = Err.
@@ -28,6 +28,7 @@ Check C19_rank_select_spec : forall b, (forall k p, bv_select b k = Some p -> bv
 Check C19_trait_defaults_equal_spec : forall b k, default_select (length b) (bv_rank b) k = Ok (bv_select b k) /\ default_select0 (length b) (bv_rank b) k = Ok (bv_select0 b k).
 Check C19_from_indices_rank_select : forall len idx, sinc idx -> Forall (fun i => i < len) idx -> (forall x, x <= len -> bv_rank (bits_of_indices len idx) x = Some (count_lt idx x)) /\ (forall k, 0 < k -> k <= length idx -> bv_select (bits_of_indices len idx) k = Some (S (nth (k - 1) idx 0))) /\ (forall k, length idx < k -> bv_select (bits_of_indices len idx) k = None).
 Check C19_sparse_from_indices_is_the_bit_list : forall branch len idx b, from_indices branch len idx = Some b -> exists v, sv_from_indices branch len idx = Some v /\ sparse_answers v b.
+Check C19_sparse_from_indices_refuses_alike : forall branch len idx, from_indices branch len idx = None -> sv_from_indices branch len idx = None.
 Check C19_sparse_construct_is_the_bit_list : forall b, exists v, sv_construct b = Some v /\ sparse_answers v b.
 Check C19_rrr_decode_inverts_encode : forall w, length w = 63 -> exists o, ModelRRR.encode w = Ok (o, count1 w) /\ ModelRRR.decode o (count1 w) = Some w /\ (o < 2 ^ N.of_nat (nth (count1 w) L_table 0%nat))%N.
 Check C19_rrr_select_word : forall word x, length word <= 64 -> select_word word x = bv_select word x.
